@@ -52,6 +52,9 @@ theorem bodyLike_of_foreign {s : State} (ht : TI s) (hf : ForeignTop s) : bodyLi
     rw [adjNode_top hl h2] at hc; cases hc
     exact absurd hns' hns
 
+theorem bodyLike_ne_text {m : Mode} (h : bodyLike m = true) : m ≠ .text := by
+  rintro rfl; revert h; decide
+
 /-! ### `step_foreign` -/
 
 theorem sat_foreignStartTag {tag : Tag} {s : State} (ht : TI s) (hf : ForeignTop s) :
@@ -138,7 +141,7 @@ theorem sat_unexpectedStartTagInForeignContent (hall : AllSpec) {tag : Tag} {s :
     rw [hb.mode]
     exact ht1.s.of_bstep ht1.h hb (by rw [hq1.mode]; exact hbl) (Keeps.of_html hk)⟩
   refine sat_getS_bind ?_
-  exact hall (.tag tag) s2 ht2
+  exact hall (.tag tag) s2 ht2 (fun h => absurd h (bodyLike_ne_text (by rw [hb.mode, hq1.mode]; exact hbl)))
 
 theorem sat_foreignEndTagLoop (hall : AllSpec) {tag : Tag} : ∀ (n : Nat) (first : Bool) (s : State), TI s →
     bodyLike s.mode = true → n < s.openElems.length →
@@ -171,7 +174,7 @@ theorem sat_foreignEndTagLoop (hall : AllSpec) {tag : Tag} : ∀ (n : Nat) (firs
     by_cases h1 : (!first && (nm s.dom s.openElems[n + 1]).ns == nsHtml) = true
     · rw [if_pos h1]
       refine sat_getS_bind ?_
-      exact hall (.tag tag) s1 ht1
+      exact hall (.tag tag) s1 ht1 (fun h => absurd h (bodyLike_ne_text (by rw [hq1.mode]; exact hbl)))
     rw [if_neg h1]
     have hnode : (nm s.dom s.openElems[n + 1]).ns ≠ nsHtml := by
       cases first with
@@ -304,6 +307,12 @@ theorem sat_stepForeign (hall : AllSpec) {tok : Token} {s : State} (ht : TI s) (
 def MoreOk (tok : Token) (more : List Token) : Prop :=
   more = [] ∨ (isCharsTok tok = true ∧ ∀ t ∈ more, isCharsTok t = true)
 
+/-- the protocol condition of `AllSpec` for the current state and token -/
+def Prot [al : Allow] (s : State) (tok : Token) : Prop := s.mode = .text → al.text ∨ textTok tok = true
+
+theorem textTok_of_chars {t : Token} (h : isCharsTok t = true) : textTok t = true := by
+  cases t <;> first | rfl | (simp [isCharsTok] at h)
+
 theorem isForeign_eof : isForeign .eof = pure false := by
   unfold isForeign; rfl
 
@@ -365,7 +374,8 @@ theorem moreOk_nil_of_not_chars {tok : Token} {more : List Token} (h : MoreOk to
   · rw [hc] at h; cases h
 
 theorem sat_ptcCont {fuel : Nat} {tok : Token} {more : List Token}
-    (ih : ∀ tok more s, TI s → MoreOk tok more → Sat (processToCompletion fuel tok more) s (fun _ s' => TI s'))
+    (ih : ∀ tok more s, TI s → MoreOk tok more → Prot s tok →
+      Sat (processToCompletion fuel tok more) s (fun _ s' => TI s'))
     {result : ProcessResult} {s1 : State} (hp : StepPost tok result s1) (hmo : MoreOk tok more) :
     Sat (ptcCont fuel tok more result) s1 (fun _ s' => TI s') := by
   have hnext : ∀ s2, TI s2 → Sat (ptcNext fuel more) s2 (fun _ s' => TI s') := by
@@ -375,11 +385,13 @@ theorem sat_ptcCont {fuel : Nat} {tok : Token} {more : List Token}
     | nil => exact sat_pure ht2
     | cons t rest =>
       dsimp only
-      refine ih t rest s2 ht2 ?_
-      rcases hmo with h | ⟨_, h⟩
-      · rw [hmore] at h; cases h
-      · rw [hmore] at h
-        exact Or.inr ⟨h t List.mem_cons_self, fun x hx => h x (List.mem_cons_of_mem _ hx)⟩
+      have hall : ∀ x ∈ t :: rest, isCharsTok x = true := by
+        rcases hmo with h | ⟨_, h⟩
+        · rw [hmore] at h; cases h
+        · rw [hmore] at h; exact h
+      exact ih t rest s2 ht2
+        (Or.inr ⟨hall t List.mem_cons_self, fun x hx => hall x (List.mem_cons_of_mem _ hx)⟩)
+        (fun _ => Or.inr (textTok_of_chars (hall t List.mem_cons_self)))
   unfold ptcCont
   dsimp only
   cases result with
@@ -400,14 +412,11 @@ theorem sat_ptcCont {fuel : Nat} {tok : Token} {more : List Token}
     dsimp only
     refine sat_setMode.bind ?_
     rintro _ s2 rfl
-    have : t = tok := hp.r
+    have : t = tok := hp.r.1
     subst this
-    exact ih t more _ ⟨hp.h.withMode m, hp.s.withMode m⟩ hmo
+    exact ih t more _ ⟨hp.h.withMode m, hp.s.withMode m⟩ hmo (fun h => absurd h hp.r.2)
   | reprocessForeign t =>
-    dsimp only
-    have : t = tok := hp.r
-    subst this
-    exact ih t more s1 ⟨hp.h, hp.s⟩ hmo
+    exact absurd hp.r id
   | splitWhitespace buf =>
     dsimp only
     cases hpf : popFrontCharRun buf with
@@ -415,7 +424,7 @@ theorem sat_ptcCont {fuel : Nat} {tok : Token} {more : List Token}
     | some x =>
       obtain ⟨first, isWs, rest⟩ := x
       dsimp only
-      refine ih _ _ s1 ⟨hp.h, hp.s⟩ ?_
+      refine ih _ _ s1 ⟨hp.h, hp.s⟩ ?_ (fun _ => Or.inr rfl)
       refine Or.inr ⟨rfl, ?_⟩
       intro t ht
       have hall : ∀ t ∈ more, isCharsTok t = true := by
@@ -444,16 +453,17 @@ theorem sat_ptcCont {fuel : Nat} {tok : Token} {more : List Token}
     exact sat_pure ⟨hp.h, hp.s⟩
   | encodingIndicator e => exact sat_pure ⟨hp.h, hp.s⟩
 
-theorem sat_processToCompletion (hall : AllSpec) : ∀ (fuel : Nat) (tok : Token) (more : List Token) (s : State),
-    TI s → MoreOk tok more → Sat (processToCompletion fuel tok more) s (fun _ s' => TI s') := by
+theorem sat_processToCompletion (hall : AllSpec) (hfuel : al.fuel) :
+    ∀ (fuel : Nat) (tok : Token) (more : List Token) (s : State),
+    TI s → MoreOk tok more → Prot s tok → Sat (processToCompletion fuel tok more) s (fun _ s' => TI s') := by
   intro fuel
   induction fuel with
   | zero =>
-    intro tok more s _ _
+    intro tok more s _ _ _
     unfold processToCompletion
-    exact sat_throw Benign.ptcFuel
+    exact sat_throw (Benign.ptcFuel hfuel)
   | succ fuel ih =>
-    intro tok more s ht hmo
+    intro tok more s ht hmo hprot
     rw [processToCompletion_succ]
     dsimp only
     by_cases heof : tok = .eof
@@ -463,7 +473,7 @@ theorem sat_processToCompletion (hall : AllSpec) : ∀ (fuel : Nat) (tok : Token
       rintro b s1 ⟨rfl, rfl⟩
       simp only [Bool.false_eq_true, if_false]
       refine sat_getS_bind ?_
-      exact Sat.bind (hall .eof s ht) (fun result s1 hp => sat_ptcCont ih hp hmo)
+      exact Sat.bind (hall .eof s ht (fun _ => Or.inr rfl)) (fun result s1 hp => sat_ptcCont ih hp hmo)
     · refine (sat_isForeign ht.h).bind ?_
       rintro b s1 ⟨hq, hb⟩
       have ht1 : TI s1 := ht.of_qf hq
@@ -477,7 +487,8 @@ theorem sat_processToCompletion (hall : AllSpec) : ∀ (fuel : Nat) (tok : Token
           · rw [nm_ext hq.ext (adjNode_el ht.h hc)]; exact hns
         exact Sat.bind (sat_stepForeign hall ht1 hf1 heof) (fun result s2 hp => sat_ptcCont ih hp hmo)
       · refine sat_getS_bind ?_
-        exact Sat.bind (hall tok s1 ht1) (fun result s2 hp => sat_ptcCont ih hp hmo)
+        exact Sat.bind (hall tok s1 ht1 (by rw [hq.mode]; exact hprot))
+          (fun result s2 hp => sat_ptcCont ih hp hmo)
 
 /-! ### `process_token`, `end` -/
 
@@ -494,39 +505,63 @@ def ptFinish (tbToken : Option Token) : M SinkResult :=
   | none => pure .continue_
   | some t => do processToCompletion (ptcFuel (← getS) t) t []
 
-theorem sat_ptFinish (hall : AllSpec) {tb : Option Token} {s : State} (ht : TI s) :
-    Sat (ptFinish tb) s (fun _ s' => TI s') := by
+/-- the tokens a token source may send while the builder is in Text mode (the tokenizer protocol) -/
+def okTextTok : TokToken → Bool
+  | .tag t => t.kind == .endTag
+  | .comment _ => false
+  | .nullChar => false
+  | _ => true
+
+theorem sat_ptFinish (hall : AllSpec) (hfuel : al.fuel) {tb : Option Token} {s : State} (ht : TI s)
+    (hprot : ∀ t, tb = some t → Prot s t) : Sat (ptFinish tb) s (fun _ s' => TI s') := by
   unfold ptFinish
   cases tb with
   | none => exact sat_pure ht
   | some t =>
     dsimp only
     refine sat_getS_bind ?_
-    exact sat_processToCompletion hall _ t [] s ht (Or.inl rfl)
+    exact sat_processToCompletion hall hfuel _ t [] s ht (Or.inl rfl) (hprot t rfl)
 
-theorem sat_processToken (hall : AllSpec) {token : TokToken} {line : Nat} {s : State} (ht : TI s) :
+theorem textTok_charsToken {b : Bool} {x : Str} {t : Token} (h : charsToken b x = some t) : textTok t = true := by
+  unfold charsToken at h
+  split at h
+  · cases h
+  · cases h; rfl
+
+theorem sat_processToken (hall : AllSpec) (hfuel : al.fuel) {token : TokToken} {line : Nat} {s : State}
+    (ht : TI s) (hprot : s.mode = .text → al.text ∨ okTextTok token = true) :
     Sat (processToken token line) s (fun _ s' => TI s') := by
   unfold processToken
   refine sat_getS_bind ?_
   dsimp only
-  refine sat_ite_jp (Q := TI)
-    (fun _ => (sat_sinkUnit_total ⟨_, _, apply_setLine _ _⟩).mono (fun _ s1 hq => ht.of_qf hq))
-    (fun _ => ht) ?_
-  intro s1 ht1
+  refine sat_ite_jp (Q := fun s1 => TI s1 ∧ s1.mode = s.mode)
+    (fun _ => (sat_sinkUnit_total ⟨_, _, apply_setLine _ _⟩).mono (fun _ s1 hq => ⟨ht.of_qf hq, hq.mode⟩))
+    (fun _ => ⟨ht, rfl⟩) ?_
+  rintro s1 ⟨ht1, hm1⟩
   refine sat_getS_bind ?_
   refine sat_modS_bind ?_
   have ht2 : TI { s1 with ignoreLf := false } := ht1.withIgnoreLf false
-  have hfin : ∀ (tb : Option Token) (s3 : State), TI s3 → Sat (ptFinish tb) s3 (fun _ s' => TI s') :=
-    fun tb s3 h3 => sat_ptFinish hall h3
+  have hfin : ∀ (tb : Option Token) (s3 : State), TI s3 → (∀ t, tb = some t → Prot s3 t) →
+      Sat (ptFinish tb) s3 (fun _ s' => TI s') :=
+    fun tb s3 h3 hp3 => sat_ptFinish hall hfuel h3 hp3
+  have hprot2 : ∀ t, (textTok t = true ∨ (okTextTok token = true → textTok t = true)) →
+      Prot { s1 with ignoreLf := false } t := by
+    intro t h hmt
+    have hmt' : s.mode = .text := by rw [← hm1]; exact hmt
+    rcases hprot hmt' with h1 | h1
+    · exact Or.inl h1
+    · rcases h with h | h
+      · exact Or.inr h
+      · exact Or.inr (h h1)
   cases token with
   | parseError e =>
     dsimp only
     refine (sat_sinkUnit_total ⟨_, _, apply_parseError _ _⟩).bind ?_
     intro _ s3 hq3
     refine sat_modS_bind ?_
-    refine Sat.bind (Q := fun tb s4 => TI s4) (sat_pure ((ht2.of_qf hq3).withIgnoreLf _)) ?_
-    intro tb s4 ht4
-    exact hfin tb s4 ht4
+    refine Sat.bind (Q := fun tb s4 => tb = none ∧ TI s4) (sat_pure ⟨rfl, (ht2.of_qf hq3).withIgnoreLf _⟩) ?_
+    rintro tb s4 ⟨rfl, ht4⟩
+    exact hfin none s4 ht4 (fun t h => by cases h)
   | doctype dt =>
     dsimp only
     refine sat_getS_bind ?_
@@ -559,51 +594,80 @@ theorem sat_processToken (hall : AllSpec) {token : TokToken} {line : Nat} {s : S
       intro _ s5 hs5
       refine sat_setMode.bind ?_
       rintro _ s6 rfl
-      refine Sat.bind (Q := fun tb s7 => TI s7) (sat_pure (hS s5 (hs4.trans hs5))) ?_
-      intro tb s7 ht7
-      exact hfin tb s7 ht7
+      refine Sat.bind (Q := fun tb s7 => tb = none ∧ TI s7) (sat_pure ⟨rfl, hS s5 (hs4.trans hs5)⟩) ?_
+      rintro tb s7 ⟨rfl, ht7⟩
+      exact hfin none s7 ht7 (fun t h => by cases h)
     · have hmi' : (({ s1 with ignoreLf := false } : State).mode == Mode.initial) = false := by
         cases hm : ({ s1 with ignoreLf := false } : State).mode <;> first | rfl | exact absurd hm hmi
       rw [hmi']
       simp only [Bool.false_eq_true, if_false]
       refine sat_parseError.bind ?_
       intro _ s3 hq3
-      refine Sat.bind (Q := fun tb s4 => TI s4) (sat_pure (ht2.of_qf hq3)) ?_
-      intro tb s4 ht4
-      exact hfin tb s4 ht4
+      refine Sat.bind (Q := fun tb s4 => tb = none ∧ TI s4) (sat_pure ⟨rfl, ht2.of_qf hq3⟩) ?_
+      rintro tb s4 ⟨rfl, ht4⟩
+      exact hfin none s4 ht4 (fun t h => by cases h)
   | tag t =>
-    refine Sat.bind (Q := fun tb s4 => TI s4) (sat_pure ht2) ?_
-    intro tb s4 ht4
-    exact hfin tb s4 ht4
+    refine Sat.bind (Q := fun tb s4 => tb = some (.tag t) ∧ s4 = { s1 with ignoreLf := false }) (sat_pure ⟨rfl, rfl⟩) ?_
+    rintro tb s4 ⟨rfl, rfl⟩
+    exact hfin (some (.tag t)) _ ht2 (fun t' h => by cases h; exact hprot2 _ (Or.inr (fun h => h)))
   | comment c =>
-    refine Sat.bind (Q := fun tb s4 => TI s4) (sat_pure ht2) ?_
-    intro tb s4 ht4
-    exact hfin tb s4 ht4
+    refine Sat.bind (Q := fun tb s4 => tb = some (.comment c) ∧ s4 = { s1 with ignoreLf := false }) (sat_pure ⟨rfl, rfl⟩) ?_
+    rintro tb s4 ⟨rfl, rfl⟩
+    exact hfin (some (.comment c)) _ ht2 (fun t' h => by cases h; exact hprot2 _ (Or.inr (fun h => by cases h)))
   | nullChar =>
-    refine Sat.bind (Q := fun tb s4 => TI s4) (sat_pure ht2) ?_
-    intro tb s4 ht4
-    exact hfin tb s4 ht4
+    refine Sat.bind (Q := fun tb s4 => tb = some .nullChar ∧ s4 = { s1 with ignoreLf := false }) (sat_pure ⟨rfl, rfl⟩) ?_
+    rintro tb s4 ⟨rfl, rfl⟩
+    exact hfin (some .nullChar) _ ht2 (fun t' h => by cases h; exact hprot2 _ (Or.inr (fun h => by cases h)))
   | eof =>
-    refine Sat.bind (Q := fun tb s4 => TI s4) (sat_pure ht2) ?_
-    intro tb s4 ht4
-    exact hfin tb s4 ht4
+    refine Sat.bind (Q := fun tb s4 => tb = some .eof ∧ s4 = { s1 with ignoreLf := false }) (sat_pure ⟨rfl, rfl⟩) ?_
+    rintro tb s4 ⟨rfl, rfl⟩
+    exact hfin (some .eof) _ ht2 (fun t' h => by cases h; exact hprot2 _ (Or.inl rfl))
   | chars x =>
-    refine Sat.bind (Q := fun tb s4 => TI s4) (sat_pure ht2) ?_
-    intro tb s4 ht4
-    exact hfin tb s4 ht4
+    refine Sat.bind (Q := fun tb s4 => tb = charsToken s1.ignoreLf x ∧ s4 = { s1 with ignoreLf := false })
+      (sat_pure ⟨rfl, rfl⟩) ?_
+    rintro tb s4 ⟨rfl, rfl⟩
+    exact hfin _ _ ht2 (fun t' h => hprot2 _ (Or.inl (textTok_charsToken h)))
 
-theorem sat_processTokens (hall : AllSpec) : ∀ (toks : List (TokToken × Nat)) (acc : List SinkResult) (s : State),
-    TI s → Sat (processTokens toks acc) s (fun _ s' => TI s') := by
+/-- a token list keeps the tokenizer protocol: whenever the builder is in Text mode, the next token is
+a character token, an end tag, EOF (or a parse error / doctype, which the builder does not dispatch) -/
+def Respects : State → List (TokToken × Nat) → Prop
+  | _, [] => True
+  | s, (t, line) :: rest =>
+    (s.mode = .text → okTextTok t = true) ∧
+    ∀ r s', (processToken t line).run s = .ok (r, s') → Respects s' rest
+
+theorem sat_with_run {α : Type} {m : M α} {s : State} {Q : α → State → Prop} (h : Sat m s Q) :
+    Sat m s (fun a s' => Q a s' ∧ m.run s = .ok (a, s')) := by
+  unfold Sat at h ⊢
+  show match m s with | .ok (a, s') => Q a s' ∧ m s = .ok (a, s') | .error e => Benign e
+  cases hr : m s with
+  | error e => rw [hr] at h; exact h
+  | ok r => obtain ⟨a, s'⟩ := r; rw [hr] at h; exact ⟨h, rfl⟩
+
+theorem sat_processTokens (hall : AllSpec) (hfuel : al.fuel) :
+    ∀ (toks : List (TokToken × Nat)) (acc : List SinkResult) (s : State),
+    TI s → (al.text ∨ Respects s toks) → Sat (processTokens toks acc) s (fun _ s' => TI s') := by
   intro toks
   induction toks with
-  | nil => intro acc s ht; exact sat_pure ht
+  | nil => intro acc s ht _; exact sat_pure ht
   | cons t rest ih =>
-    intro acc s ht
+    intro acc s ht hresp
     obtain ⟨tk, line⟩ := t
     unfold processTokens
-    refine (sat_processToken hall ht).bind ?_
-    intro r s1 ht1
-    exact ih _ s1 ht1
+    have hprot : s.mode = .text → al.text ∨ okTextTok tk = true := by
+      intro hm
+      rcases hresp with h | h
+      · exact Or.inl h
+      · exact Or.inr (h.1 hm)
+    have h1 := sat_processToken (line := line) hall hfuel ht hprot
+    -- keep the run equation for `Respects`
+    have h2 := sat_with_run h1
+    refine h2.bind ?_
+    rintro r s1 ⟨ht1, hrun⟩
+    refine ih _ s1 ht1 ?_
+    rcases hresp with h | h
+    · exact Or.inl h
+    · exact Or.inr (h.2 r s1 hrun)
 
 theorem sat_endLoop : ∀ (l : List Id) (s : State), Sat (endLoop l) s (fun _ _ => True) := by
   intro l
